@@ -11,6 +11,13 @@ def plan(tier, seed):
             ch("C07", G, "h_multi_append", t, ["api.ParquetFile.write_row_groups", "writer.write_multi",
                                                "writer.find_max_part", "api.part_ids", "writer.make_part_file",
                                                "writer.write_common_metadata"])]
+    for ids in (["1,2", "9,10"] if tier == "quick" else ["1,2", "0,1,2,3,4,5,6,7,8,9,10", "0,2,5", "7",
+                                                                            "9,10,11", "99,100"]):
+        j = ch("C07", G, "h_multi_append", t, ["writer.write_multi", "writer.find_max_part", "api.part_ids"],
+               shape=dict(old_ids=ids), env=dict(VERIF_OLD_IDS=ids))
+        j["name"] += "[ids=%s]" % ids
+        jobs.append(j)
+    jobs.append(ch("C07", G, "h_find_max_part", t, ["writer.find_max_part", "api.part_ids"]))
     try:
         from . import partnames
         jobs += partnames.jobs("C07", tier)
